@@ -249,6 +249,7 @@ func checkC17(c *Ctx) {
 	checkAliasExpansionGuard(c, "C17.R1.alias-recursion", pk)
 	checkModelsRescanned(c, "C17.R8.models-rescanned", pk)
 	checkCommentsRaw(c, "C17.R8.comments-raw", pk)
+	checkParameterIdentity(c, "C17.R3.parameter-identity", pk)
 	checkBodyHasLastWord(c, "C17.R3.body-last-word", pk)
 	checkInputNormalised(c, "C17.R1.input-normalised", pk)
 	checkValueParsers(c, "C17.R4.value-parsers", pk)
@@ -933,7 +934,7 @@ var codescanLoopExits = map[string]string{
 	"codescan.responseBuilder.buildFromStruct › loop over types.Struct.NumFields #1 › continue #3":                 "‹*ast.Field› == nil ⇒ no syntax found for the field (declared in a file that was not parsed): nothing to read annotations from (logged)",
 	"codescan.responseBuilder.buildFromStruct › loop over types.Struct.NumFields #1 › continue #4":                 "ignored(‹*ast.Field›.Doc) ⇒ field annotated swagger:ignore",
 	"codescan.responseBuilder.buildFromStruct › loop over types.Struct.NumFields #1 › continue #5":                 "‹bool› ⇒ field tagged json:\"-\"",
-	"codescan.parameterBuilder.buildFromStruct › loop over spec.Parameter #1 › break #1":                           "‹spec.Parameter›.Name == ‹string› ⇒ re-ordering pass: the parameter named k was found and removed from its old position",
+	"codescan.parameterBuilder.buildFromStruct › loop over spec.Parameter #1 › break #1":                           "‹spec.Parameter›.Name == ‹string› && ‹spec.Parameter›.In == ‹spec.Parameter›.In ⇒ re-ordering pass: the parameter named k in the same location was found and removed from its old position",
 	"codescan.schemaBuilder.buildFromStruct › loop over types.Struct.NumFields #1 › continue #1":                   "!‹*types.Var›.Anonymous() ⇒ first pass looks at embedded fields only",
 	"codescan.schemaBuilder.buildFromStruct › loop over types.Struct.NumFields #1 › continue #2":                   "‹*ast.Field› == nil ⇒ no syntax found for the embedded field (logged)",
 	"codescan.schemaBuilder.buildFromStruct › loop over types.Struct.NumFields #1 › continue #3":                   "ignored(‹*ast.Field›.Doc) ⇒ embedded field annotated swagger:ignore",
@@ -962,7 +963,7 @@ var codescanLoopExits = map[string]string{
 	"codescan.collectOperationsFromInput › loop over spec.PathItem #1 › conditional store #5":                      "‹spec.PathItem›.Delete != nil ⇒ one arm per HTTP method of a path item (DELETE): absent methods have no operation",
 	"codescan.collectOperationsFromInput › loop over spec.PathItem #1 › conditional store #6":                      "‹spec.PathItem›.Head != nil ⇒ one arm per HTTP method of a path item (HEAD): absent methods have no operation",
 	"codescan.collectOperationsFromInput › loop over spec.PathItem #1 › conditional store #7":                      "‹spec.PathItem›.Options != nil ⇒ one arm per HTTP method of a path item (OPTIONS): absent methods have no operation",
-	"codescan.parameterBuilder.buildFromStruct › loop over spec.Parameter #1 › conditional store #1":               "‹spec.Parameter›.Name == ‹string› ⇒ re-ordering pass: removes the parameter from its old position before it is appended at the new one",
+	"codescan.parameterBuilder.buildFromStruct › loop over spec.Parameter #1 › conditional store #1":               "‹spec.Parameter›.Name == ‹string› && ‹spec.Parameter›.In == ‹spec.Parameter›.In ⇒ re-ordering pass: removes the parameter (same name, same location) from its old position before it is appended at the new one",
 	"codescan.responseBuilder.buildFromStruct › loop over types.Struct.NumFields #1 › conditional store #1":        "‹string› != \"body\" ⇒ fields with `in: body` describe the response schema, the others are headers",
 	"codescan.responseBuilder.buildFromStruct › loop over types.Struct.NumFields #1 › conditional store #2":        "‹string› != \"body\" ⇒ same arm: the header is stored",
 	"codescan.schemaBuilder.buildFromInterface › loop over types.Interface.NumEmbeddeds #1 › conditional store #1": "!allOfMember(‹*ast.Field›.Doc) ⇒ embedded interface without swagger:allOf: inlined as an allOf member built from its methods",
@@ -1937,5 +1938,79 @@ func checkBodyHasLastWord(c *Ctx, rule string, pk *packages.Package) {
 	}
 	if n == 0 {
 		c.Anchor(rule, "codescan › call passing <object>.UnmarshalJSON", "not found")
+	}
+}
+
+// checkParameterIdentity: Swagger identifies a parameter by its name and its location. Where the
+// scanner replaces a parameter an operation already has (a second swagger:parameters struct for
+// the same operation, an input document), the one it removes is the one with the same name in
+// the same location: by name alone, `?id=` takes the place of `/{id}` and the path parameter is gone.
+func checkParameterIdentity(c *Ctx, rule string, pk *packages.Package) {
+	c.Rule(rule, "a parameter of an operation is replaced only by one of the same name and the same location (the condition compares .Name and .In)", 1)
+	info := pk.TypesInfo
+	n := 0
+	for _, fd := range load.AllFuncs(pk) {
+		if fd.Body == nil {
+			continue
+		}
+		fd := fd
+		ast.Inspect(fd.Body, func(m ast.Node) bool {
+			rs, ok := m.(*ast.RangeStmt)
+			if !ok {
+				return true
+			}
+			sl, ok := info.TypeOf(rs.X).Underlying().(*types.Slice)
+			if !ok || goan.NamedPath(sl.Elem()) != "github.com/go-openapi/spec.Parameter" {
+				return true
+			}
+			coll := goan.ExprString(rs.X)
+			ast.Inspect(rs.Body, func(k ast.Node) bool {
+				ifs, ok := k.(*ast.IfStmt)
+				if !ok {
+					return true
+				}
+				writes := false
+				ast.Inspect(ifs.Body, func(w ast.Node) bool {
+					if as, ok := w.(*ast.AssignStmt); ok {
+						for _, l := range as.Lhs {
+							if goan.ExprString(l) == coll {
+								writes = true
+							}
+							if ix, ok := l.(*ast.IndexExpr); ok && goan.ExprString(ix.X) == coll {
+								writes = true
+							}
+						}
+					}
+					return true
+				})
+				if !writes {
+					return true
+				}
+				n++
+				byName, byIn := false, false
+				ast.Inspect(ifs.Cond, func(w ast.Node) bool {
+					if be, ok := w.(*ast.BinaryExpr); ok && be.Op == token.EQL {
+						for _, side := range []ast.Expr{be.X, be.Y} {
+							if se, ok := ast.Unparen(side).(*ast.SelectorExpr); ok && goan.NamedPath(info.TypeOf(se.X)) == "github.com/go-openapi/spec.Parameter" {
+								switch se.Sel.Name {
+								case "Name":
+									byName = true
+								case "In":
+									byIn = true
+								}
+							}
+						}
+					}
+					return true
+				})
+				c.Check(byName && byIn, rule, "codescan."+load.FuncName(fd)+" › replacement in "+goan.NamedName(info.TypeOf(ast.Unparen(rs.X).(*ast.SelectorExpr).X))+".Parameters", c.posOf(pk, ifs.Pos()), "same name and same location",
+					"the parameter removed to make room for the new one is found by `"+goan.ExprString(ifs.Cond)+"`: a parameter of the same name in another location (path `id` and query `id`, declared by two swagger:parameters structs) is taken for the same one and disappears from the operation, without an error")
+				return true
+			})
+			return true
+		})
+	}
+	if n == 0 {
+		c.Anchor(rule, "codescan › replacement of an operation parameter", "not found")
 	}
 }
